@@ -58,8 +58,10 @@ def main():
         extra = json.load(open(px))
     for k, v in extra.items():
         P[k] = tuple(v)
+    ready = set(open(os.path.join(HERE, 'tools', 'ready.txt')).read().split())
     for pid in props:
-        if pid in P and os.path.exists(os.path.join(HERE, 'mc', 'props', pid.lower() + '.py')):
+        if pid in P and pid in ready and \
+                os.path.exists(os.path.join(HERE, 'mc', 'props', pid.lower() + '.py')):
             checks.append(entry(pid))
         else:
             na.append({'property_id': pid,
